@@ -448,9 +448,41 @@ fn max_pair_rate(points: &[(usize, u64, u64, bool)], upto_op: usize) -> f64 {
 
 struct Stats {
     max_steady_dev: f64,
+    max_discount_dev: f64,
+    steady_between: u64,
     max_eta_dev_ns: f64,
     stall_rises: u64,
+    stall_rises_known: u64,
     stall_windows: u64,
+    cand_underflow: u64,
+    cand_rewind_nan: u64,
+}
+
+/// a failure of a class that is a candidate finding: reported only when its switch is on
+fn candidate(s: &mut Session, report: bool, class: &str, detail: String, desc: &str) {
+    if report {
+        s.fail(class, detail, desc.to_string());
+    } else {
+        s.count(&format!("candidate-finding:{class}"));
+    }
+}
+
+/// one reading inside a stall window
+#[derive(Clone, Copy)]
+struct WPt {
+    t: u64,
+    rate: f64,
+    /// the harness's transcription reproduces this reading bit for bit
+    shadow_agrees: bool,
+}
+
+/// the explicit stall discount of a steady stream (docs/C09.md, theorem C09_steady_every_instant):
+/// with A = 0.1^((last sample - restart)/15 s), w = 0.1^((now - last sample)/15 s) the reported
+/// rate is r * (1 - ((1-w)/(1-A w))^2); written in the product form that does not cancel for
+/// small w
+fn steady_discount(a: f64, w: f64) -> f64 {
+    let n = 1.0 - a * w;
+    (1.0 - a) * w * (2.0 - w - a * w) / (n * n)
 }
 
 /// Direct statement of C09 on the implementation's outputs.
@@ -464,52 +496,65 @@ fn oracle(s: &mut Session, st: &mut Stats, desc: &str, ops: &[Op], run: &Run, st
     // throttled by the position limiter - do not end the stall).  SCOPE DECISION taken from the
     // shadow (`changed`): where a window starts.  A wrong shadow shows up as a correspondence
     // mismatch (missing powf entry), so it cannot silently hide a rise.
-    let mut window: Vec<(u64, f64)> = vec![];
+    let mut window: Vec<WPt> = vec![];
     let mut window_m = 0f64;
-    let flush = |s: &mut Session, st: &mut Stats, w: &mut Vec<(u64, f64)>, m: f64| {
+    let mut window_sd = (0f64, 0f64); // shadow (smoothed, double_smoothed) at the last sample
+    let flush = |s: &mut Session, st: &mut Stats, w: &mut Vec<WPt>, m: f64, sd: (f64, f64)| {
         if w.len() >= 2 {
             st.stall_windows += 1;
-            // monotone decay while stalled; a rise is tolerated only as the known class when the
-            // sequence is unimodal with the rise at the very start of the stall (rate still
-            // rising right after the last sample <=> smoothed > double_smoothed there)
+            // monotone decay while stalled.  A rise is the KNOWN class D11 only if its CAUSE is
+            // established:
+            //  (a) smoothed > double_smoothed at the last accepted sample (theorem
+            //      C09_stall_rise_iff: over R the stalled rate can exceed the rate at the last
+            //      sample iff this holds; C09_decay_when_d_ge_s: otherwise it decays), decided on
+            //      the harness's own binary64 transcription of the two averages, and
+            //  (b) that transcription reproduces EVERY reading of the window bit for bit, i.e.
+            //      its state is the implementation's as far as observable, and
+            //  (c) the shape is the one the cause explains: the rise comes first, no rise after
+            //      a fall (the stalled rate is a concave parabola in v = W(x)/(1 - A W(x))).
+            // Any other rise is class `stall-nonmonotone` (unlisted: a VIOLATION).
             let mut first_rise = None;
             let mut fallen = false;
             let mut unimodal = true;
             for k in 1..w.len() {
-                if w[k].1 > w[k - 1].1 * (1.0 + REL) && w[k].1 - w[k - 1].1 > 1e-300 {
+                if w[k].rate > w[k - 1].rate * (1.0 + REL) && w[k].rate - w[k - 1].rate > 1e-300 {
                     if first_rise.is_none() {
                         first_rise = Some(k);
                     }
                     if fallen {
                         unimodal = false;
                     }
-                } else if w[k].1 < w[k - 1].1 * (1.0 - REL) {
+                } else if w[k].rate < w[k - 1].rate * (1.0 - REL) {
                     fallen = true;
                 }
             }
             if let Some(k) = first_rise {
                 st.stall_rises += 1;
-                // the stalled rate is a concave parabola in v = W(x)/(1 - W(a + x)) (see
-                // EstimatorProofs.v): rise-then-fall <=> smoothed > double_smoothed at the last
-                // sample; a rise AFTER a fall is not explained by that and is a new violation
-                let class = if unimodal { "stall-rise-after-acceleration" } else { "stall-nonmonotone" };
+                let cause = sd.0 > sd.1;
+                let agrees = w.iter().all(|p| p.shadow_agrees);
+                let known = cause && agrees && unimodal;
+                if known {
+                    st.stall_rises_known += 1;
+                }
+                let class = if known { "stall-rise-after-acceleration" } else { "stall-nonmonotone" };
                 s.fail(
                     class,
                     format!(
-                        "stalled since t={}ns: per_sec {} at +{}ns < {} at +{}ns (rate must decay monotonically while no progress is made)",
-                        w[0].0, w[k - 1].1, w[k - 1].0 - w[0].0, w[k].1, w[k].0 - w[0].0
+                        "stalled since t={}ns: per_sec {} at +{}ns < {} at +{}ns (rate must decay monotonically while no progress is made); at the last sample smoothed={} double_smoothed={} (transcription {} the readings), rise first: {}",
+                        w[0].t, w[k - 1].rate, w[k - 1].t - w[0].t, w[k].rate, w[k].t - w[0].t,
+                        sd.0, sd.1, if agrees { "reproduces" } else { "does NOT reproduce" }, unimodal
                     ),
                     desc.to_string(),
                 );
             }
             // decays TOWARDS ZERO: envelope 2*M*W(x), x = length of the stall
             for k in 1..w.len() {
-                let x = (w[k].0 - w[0].0) as f64 / 1e9;
+                let x = (w[k].t - w[0].t) as f64 / 1e9;
                 let env = 2.0 * m * (10f64).powf(-x / 15.0);
-                if w[k].1 > env * (1.0 + 1e-6) + 1e-300 {
+                if w[k].rate > env * (1.0 + 1e-6) + 1e-300 {
                     s.fail(
                         "stall-no-decay",
-                        format!("stalled for {x}s: per_sec {} above the envelope 2*M*0.1^(x/15) = {env} (M={m})", w[k].1),
+                        format!("stalled for {x}s: per_sec {} above the envelope 2*M*0.1^(x/15) = {env} (M={m})", w[k].rate),
                         desc.to_string(),
                     );
                     break;
@@ -518,16 +563,16 @@ fn oracle(s: &mut Session, st: &mut Stats, desc: &str, ops: &[Op], run: &Run, st
         }
         w.clear();
     };
-    let mut last_update_op = usize::MAX;
     for q in &run.q {
         let o = &ops[q.op_index];
-        let in_scope = q.t > q.est_start; // strictly after creation / last estimator restart
+        // the property's domain: strictly after creation / the last reset_eta, reset_elapsed, reset
+        let in_scope = q.t > q.reset_time;
+        // the estimator was restarted at this very clock reading; inside the domain that can only
+        // be a recorded backwards seek (SCOPE DECISION from the shadow)
+        let at_restart = q.t == q.est_start;
         let is_update = !q.explicit;
-        if is_update {
-            if q.changed {
-                flush(s, st, &mut window, window_m);
-            }
-            last_update_op = q.op_index;
+        if is_update && q.changed {
+            flush(s, st, &mut window, window_m, window_sd);
         }
         let ob = &q.obs;
         let (eta, dur) = match (ob.eta, ob.dur) {
@@ -551,16 +596,31 @@ fn oracle(s: &mut Session, st: &mut Stats, desc: &str, ops: &[Op], run: &Run, st
             window.clear();
             continue;
         }
-        // (1) finite and non-negative strictly after creation / last reset
-        if in_scope && !(ob.per_sec.is_finite() && ob.per_sec >= 0.0) {
-            s.fail(
-                "not-finite",
-                format!("per_sec={} at op #{} ({}), t={} > estimator start {}", ob.per_sec, q.op_index, o.coq(), q.t, q.est_start),
-                desc.to_string(),
-            );
+        if !in_scope {
+            window.clear();
             continue;
         }
-        if !in_scope {
+        // (1) finite and non-negative strictly after creation / last reset
+        if !(ob.per_sec.is_finite() && ob.per_sec >= 0.0) {
+            if at_restart && ob.per_sec.is_nan() {
+                // f64 artefact inside the property's domain: 0.0 * 1.0 / 0.0 at the instant of a
+                // recorded backwards seek (theorems C09_bar_rewind_instant_refuted,
+                // C09_f64_rewind_instant_nan_refuted; candidate patch docs/patches/C09-rewind-nan.diff)
+                st.cand_rewind_nan += 1;
+                candidate(
+                    s,
+                    REPORT_REWIND_NAN_FINDING,
+                    "nan-at-backwards-seek-instant",
+                    format!("per_sec=NaN at op #{} ({}), t={} = instant of a recorded backwards seek, strictly after creation / last reset at {}", q.op_index, o.coq(), q.t, q.reset_time),
+                    desc,
+                );
+            } else {
+                s.fail(
+                    "not-finite",
+                    format!("per_sec={} at op #{} ({}), t={} > creation / last reset {} (estimator start {})", ob.per_sec, q.op_index, o.coq(), q.t, q.reset_time, q.est_start),
+                    desc.to_string(),
+                );
+            }
             window.clear();
             continue;
         }
@@ -573,19 +633,73 @@ fn oracle(s: &mut Session, st: &mut Stats, desc: &str, ops: &[Op], run: &Run, st
                 desc.to_string(),
             );
         }
-        // (3) steady progress => exact rate at the sample instants
+        // (2b) the rate is zero exactly when no progress has been seen since the last restart
+        // (SCOPE DECISION from the shadow: a sample was accepted since then).  A zero although
+        // progress was seen is the binary64 underflow artefact when the stall is long enough for
+        // the weight to have left the normal range, and a violation otherwise.
+        let seen = q.last_sample > q.est_start;
+        let stall_ns = q.t - q.last_sample;
+        if seen && ob.per_sec == 0.0 {
+            if stall_ns >= STALL_SUBNORMAL_NS {
+                st.cand_underflow += 1;
+                candidate(
+                    s,
+                    REPORT_UNDERFLOW_FINDING,
+                    "rate-underflow-after-long-stall",
+                    format!("per_sec=0 and eta={eta:?} at op #{}, {} s after the last accepted sample, although progress has been seen (0.1^(x/15) is below 2^-1022 from 4615 s, rounds to 0 from 4855 s)", q.op_index, stall_ns as f64 / 1e9),
+                    desc,
+                );
+            } else {
+                s.fail(
+                    "rate-zero-although-progress-seen",
+                    format!("per_sec=0 at op #{} only {} s after the last accepted sample", q.op_index, stall_ns as f64 / 1e9),
+                    desc.to_string(),
+                );
+            }
+        }
+        if !seen && ob.per_sec != 0.0 {
+            s.fail(
+                "rate-nonzero-without-progress",
+                format!("per_sec={} at op #{} although no sample was accepted since the restart at {}", ob.per_sec, q.op_index, q.est_start),
+                desc.to_string(),
+            );
+        }
+        if stall_ns >= STALL_ZERO_NS && ob.per_sec != 0.0 && seen {
+            // not a property failure (a non-zero tiny rate is what the property wants); the
+            // threshold theorem predicts 0 for every round-to-nearest powf
+            s.count("weight-underflow:nonzero-rate-beyond-4855s");
+        }
+        // (3) steady progress: the reported rate is r * discount at EVERY reading, the discount
+        // being 1 exactly at the instant of the last accepted sample
         if let Some(r) = steady {
-            if is_update && q.t > q.est_start && last_update_op == q.op_index && sample_recorded(ops, q.op_index) {
-                let dev = ((ob.per_sec - r) / r).abs();
-                if dev > st.max_steady_dev {
-                    st.max_steady_dev = dev
-                }
-                if dev > REL {
-                    s.fail(
-                        "steady-rate-inexact",
-                        format!("steady rate {r}/s but per_sec={} right after op #{} (relative deviation {dev:e})", ob.per_sec, q.op_index),
-                        desc.to_string(),
-                    );
+            let a = weight_of(secs_of(q.last_sample - q.est_start));
+            let w = weight_of(secs_of(stall_ns));
+            if seen && stall_ns < STALL_SUBNORMAL_NS {
+                let want = r * steady_discount(a, w);
+                let dev = ((ob.per_sec - want) / want).abs();
+                if stall_ns == 0 {
+                    if dev > st.max_steady_dev {
+                        st.max_steady_dev = dev
+                    }
+                    if dev > REL {
+                        s.fail(
+                            "steady-rate-inexact",
+                            format!("steady rate {r}/s but per_sec={} at the instant of the last accepted sample, op #{} (relative deviation {dev:e})", ob.per_sec, q.op_index),
+                            desc.to_string(),
+                        );
+                    }
+                } else {
+                    st.steady_between += 1;
+                    if dev > st.max_discount_dev {
+                        st.max_discount_dev = dev
+                    }
+                    if dev > REL {
+                        s.fail(
+                            "steady-discount-mismatch",
+                            format!("steady rate {r}/s, {} s after the last accepted sample: per_sec={} but r*(1-((1-w)/(1-A w))^2) = {want} (relative deviation {dev:e})", stall_ns as f64 / 1e9, ob.per_sec),
+                            desc.to_string(),
+                        );
+                    }
                 }
             }
         }
@@ -621,10 +735,11 @@ fn oracle(s: &mut Session, st: &mut Stats, desc: &str, ops: &[Op], run: &Run, st
         }
         if window.is_empty() {
             window_m = m;
+            window_sd = (q.sh_sm, q.sh_dsm);
         }
-        window.push((q.t, ob.per_sec));
+        window.push(WPt { t: q.t, rate: ob.per_sec, shadow_agrees: fbits(q.sh_rate) == fbits(ob.per_sec) });
     }
-    flush(s, st, &mut window, window_m);
+    flush(s, st, &mut window, window_m, window_sd);
 }
 
 /// instant `started` of the bar at op index i (creation, or the last reset()/reset_elapsed())
@@ -636,11 +751,6 @@ fn run_started(ops: &[Op], run: &Run, upto: usize) -> u64 {
         }
     }
     started
-}
-
-/// steady generator only emits UpdPos / Tick / resets, which always reach the estimator
-fn sample_recorded(ops: &[Op], i: usize) -> bool {
-    matches!(ops[i], Op::UpdPos(_) | Op::SetPos(_) | Op::Inc(_))
 }
 
 // ------------------------------------------------------------------ case emission
@@ -854,7 +964,15 @@ fn gen_steady(r: &mut Rng) -> (Option<u64>, Vec<Op>, f64) {
         if pos.checked_add(m.saturating_mul(k)).is_none() || m.saturating_mul(k) > (1 << 62) {
             break;
         }
-        ops.push(Op::Adv(m * unit));
+        // one gap in four is split by a query BETWEEN two samples (the line is not disturbed)
+        if r.chance(1, 4) && m * unit >= 2 {
+            let g1 = r.range(1, m * unit - 1);
+            ops.push(Op::Adv(g1));
+            ops.push(Op::Query);
+            ops.push(Op::Adv(m * unit - g1));
+        } else {
+            ops.push(Op::Adv(m * unit));
+        }
         pos += m * k;
         ops.push(match r.below(3) {
             0 => Op::SetPos(pos),
@@ -883,6 +1001,11 @@ fn gen_steady(r: &mut Rng) -> (Option<u64>, Vec<Op>, f64) {
         }
     }
     ops.push(Op::Query);
+    // ... and after the last sample: the stall discount of a steady stream
+    if r.chance(1, 2) {
+        ops.push(Op::Adv(gap(r).min(5000 * S)));
+        ops.push(Op::Query);
+    }
     let len = if r.chance(1, 4) { None } else { Some(pos.saturating_add(r.range(0, k.saturating_mul(1000).min(1 << 62)))) };
     (len, ops, rate)
 }
@@ -1074,9 +1197,19 @@ fn main() {
         "est_case",
         "est_check",
     );
-    s.rule = "histories of set_position/inc/dec/update(set_pos)/tick/set_length/unset_length/reset_eta/reset_elapsed/reset/finish/abandon and clock advances (0, 1 ns, sub-ms, 1 ms .. 30 days) on a hidden bar under the mock clock, observed by per_sec/eta/duration/elapsed; four generators: mixed (all ops, positions 1e0..1e19), steady (points on a line, irregular multiples of a unit gap >= 1 ms, restarts allowed), stall (two phases then queries at increasing instants), forget (prefix; reset*/backwards seek; suffix vs the suffix on a fresh bar); non-trivial = at least one recorded sample and one query; distinct = distinct case text".into();
+    s.rule = "histories of set_position/inc/dec/update(set_pos)/tick/set_length/unset_length/reset_eta/reset_elapsed/reset/finish/abandon and clock advances (0, 1 ns, sub-ms, 1 ms .. 30 days) on a hidden bar under the mock clock, observed by per_sec/eta/duration/elapsed; four generators: mixed (all ops, positions 1e0..1e19), steady (points on a line, irregular multiples of a unit gap >= 1 ms, restarts allowed, queries at, between and after the samples), stall (two phases then queries at increasing instants), forget (prefix; reset*/backwards seek; suffix vs the suffix on a fresh bar); non-trivial = at least one recorded sample and one query; distinct = distinct case text".into();
     s.shard_size = 100;
-    let mut st = Stats { max_steady_dev: 0.0, max_eta_dev_ns: 0.0, stall_rises: 0, stall_windows: 0 };
+    let mut st = Stats {
+        max_steady_dev: 0.0,
+        max_discount_dev: 0.0,
+        steady_between: 0,
+        max_eta_dev_ns: 0.0,
+        stall_rises: 0,
+        stall_rises_known: 0,
+        stall_windows: 0,
+        cand_underflow: 0,
+        cand_rewind_nan: 0,
+    };
     let mut r = Rng::new(a.seed);
 
     // ---- corpus (flocq instance on for all of them)
@@ -1140,6 +1273,67 @@ fn main() {
     emit(&mut s, &mut st, "corpus-wrap-dec", Some(10), 0,
         &[Op::Adv(S), Op::Inc(3), Op::Adv(S), Op::Dec(5), Op::Query, Op::Adv(S), Op::Inc(1), Op::Query, Op::Adv(S), Op::Inc(5), Op::Query], true, None);
 
+    // the witness of Theorem C09_bar_steady_between_samples_refuted: 15 steps in 15 s (rate 1), queried
+    // at the sample (exact) and 15 s later: over R the report is 21/121, NOT the true rate
+    {
+        let ops = vec![Op::Adv(15 * S), Op::UpdPos(15), Op::Query, Op::Adv(15 * S), Op::Query];
+        let run = emit(&mut s, &mut st, "corpus-steady-between-samples-coq-witness", Some(100), 0, &ops, true, Some(1.0));
+        let qs: Vec<&QRec> = run.q.iter().filter(|q| q.explicit).collect();
+        let desc = "corpus-steady-between-samples-coq-witness".to_string();
+        if qs.len() == 2 {
+            let want = 21.0 / 121.0;
+            if ((qs[1].obs.per_sec - want) / want).abs() > REL || ((qs[0].obs.per_sec - 1.0).abs() > REL) {
+                s.fail("coq-witness-value", format!("steady witness: per_sec {} at the sample (R-model: 1), {} 15 s later (R-model: 21/121 = {want})", qs[0].obs.per_sec, qs[1].obs.per_sec), desc);
+            } else {
+                s.notes.push(format!("steady-rate Coq witness replayed on the implementation: per_sec {} at the sample, {} 15 s later (21/121 over R): exact only at sample instants", qs[0].obs.per_sec, qs[1].obs.per_sec));
+            }
+        } else {
+            s.fail("panic", "steady coq witness did not produce 2 observations".into(), desc);
+        }
+    }
+    // the witness of Theorems C09_bar_rewind_instant_refuted / C09_f64_rewind_instant_nan_refuted: no reset
+    // anywhere; update(set_pos 10) at 1 s; update(set_pos 5) at 2 s; query at 2 s and 1 ns later
+    {
+        let ops = vec![Op::Adv(S), Op::UpdPos(10), Op::Adv(S), Op::UpdPos(5), Op::Query, Op::Adv(1), Op::Query];
+        let run = emit(&mut s, &mut st, "corpus-rewind-instant-nan-coq-witness", Some(100), 0, &ops, true, None);
+        let qs: Vec<&QRec> = run.q.iter().filter(|q| q.explicit).collect();
+        if qs.len() == 2 {
+            if qs[0].obs.per_sec.is_nan() {
+                s.notes.push(format!("rewind-instant Coq witness replayed on the implementation: per_sec() = NaN at the instant of the recorded backwards seek (2 s after creation, no reset), {} one ns later", qs[1].obs.per_sec));
+            } else {
+                s.notes.push(format!("rewind-instant witness does NOT give NaN on the implementation any more: per_sec() = {} (candidate finding nan-at-backwards-seek-instant is stale)", qs[0].obs.per_sec));
+            }
+        }
+    }
+    // binary64 underflow of the weight: thresholds of Theorem C09_weight_underflow_thresholds
+    {
+        let ops = vec![
+            Op::Adv(S), Op::UpdPos(1000), Op::Query,
+            Op::Adv(4614 * S), Op::Query, Op::Adv(S), Op::Query,              // 4614 s, 4615 s
+            Op::Adv(239 * S), Op::Query, Op::Adv(S), Op::Query,              // 4854 s, 4855 s
+            Op::Adv(100_000 * S), Op::Query,
+        ];
+        let run = emit(&mut s, &mut st, "corpus-weight-underflow", Some(1_000_000), 0, &ops, true, None);
+        let qs: Vec<&QRec> = run.q.iter().filter(|q| q.explicit).collect();
+        let desc = "corpus-weight-underflow".to_string();
+        if qs.len() == 6 {
+            let p: Vec<f64> = qs.iter().map(|q| q.obs.per_sec).collect();
+            s.notes.push(format!(
+                "weight underflow on the implementation (1000 steps in 1 s, then a stall): per_sec {:e} after 4614 s, {:e} after 4615 s, {:e} after 4854 s, {:e} after 4855 s (eta {:?}), {:e} after 104855 s; Coq: 0.1^(x/15) < 2^-1022 from 4615 s, < 2^-1075 (rounds to 0) from 4855 s",
+                p[1], p[2], p[3], p[4], qs[4].obs.eta, p[5]
+            ));
+            // what the threshold theorem predicts for a round-to-nearest powf
+            if !(p[1] > 0.0 && p[3] > 0.0) {
+                s.fail("rate-zero-although-progress-seen", format!("per_sec {} after 4614 s / {} after 4854 s: the weight has not underflowed yet", p[1], p[3]), desc.clone());
+            }
+            if p[4] != 0.0 || p[5] != 0.0 {
+                s.notes.push("powf does not return 0 where the correctly rounded weight is 0 (stall >= 4855 s)".to_string());
+            }
+        } else {
+            s.fail("panic", "underflow corpus case did not produce 6 observations".into(), desc);
+        }
+    }
+
     // ---- random cases
     let mult = if a.thorough { 10 } else if a.extended { 10 } else { 1 };
     let mut k = 0u64;
@@ -1165,16 +1359,20 @@ fn main() {
         forget_case(&mut s, &mut st, "forget", l, t0, &prefix, rs, &suffix, fl(&mut k));
     }
     s.notes.push(format!(
-        "steady-rate cases: largest relative deviation |per_sec - r|/r at a sample instant = {:e} (tolerance {REL:e})",
-        st.max_steady_dev
+        "steady-rate cases: largest relative deviation |per_sec - r|/r at a sample instant = {:e}; {} readings between / after samples, largest relative deviation from r*(1-((1-w)/(1-A w))^2) = {:e} (tolerance {REL:e})",
+        st.max_steady_dev, st.steady_between, st.max_discount_dev
     ));
     s.notes.push(format!(
         "eta vs remaining/per_sec: largest deviation {:.3} ns (eta < 1e6 s; truncation to ns included)",
         st.max_eta_dev_ns
     ));
     s.notes.push(format!(
-        "stall windows examined: {}, with a rise (class stall-rise-after-acceleration or stall-nonmonotone): {}",
-        st.stall_windows, st.stall_rises
+        "stall windows examined: {}, with a rise: {}, of which with the established cause smoothed > double_smoothed at the last sample (class stall-rise-after-acceleration): {}",
+        st.stall_windows, st.stall_rises, st.stall_rises_known
+    ));
+    s.notes.push(format!(
+        "candidate findings (not in known_findings.json; reported: underflow={REPORT_UNDERFLOW_FINDING}, rewind-nan={REPORT_REWIND_NAN_FINDING}): rate-underflow-after-long-stall seen at {} readings, nan-at-backwards-seek-instant at {} readings",
+        st.cand_underflow, st.cand_rewind_nan
     ));
     set_auto_step_ns(0);
     s.finish();
